@@ -231,7 +231,26 @@ Spec == Init /\ [][Next]_vars
 Data == [k \in DOMAIN perm |-> Examples(case)[perm[k]]]
 T    == EffType(case.lt, Data)
 Out  == IF Data = <<>> THEN <<>> ELSE Interactions(T, Data, Probes(T, case.lk))
-Emit == go => PrintT(ToJson([case |-> case, T |-> IF Data = <<>> THEN "-" ELSE T, perm |-> perm, inp |-> Input(case), out |-> Out]))
+
+(* ---- reads ------------------------------------------------------------------------------------ *)
+(* read() (supervised.py 189-237) is the only public action of the environment and it changes        *)
+(* nothing: "the number and order of interactions equal those of the examples" is said of the        *)
+(* simulation, hence of EVERY read of one and the same object - the second read as well as the       *)
+(* first, a read that follows a read abandoned part way, and the reads of every pipeline that shares *)
+(* the object (Environments.from_supervised(..).shuffle(n=2): two pipelines, one simulation).  With  *)
+(* take the seeded reservoir sample is the same on every read (perm is no function of the history).  *)
+(* Plan is the sequence of reads performed on ONE object: "full" = read to the end, "abandon" = the  *)
+(* consumer stops after the first interaction.  ReadExpect gives what read number r must deliver     *)
+(* after the reads hist: it ignores hist.                                                            *)
+CONSTANT Plan
+ReadExpect(hist, kind) == IF kind = "abandon" THEN SubSeq(Out, 1, Min(1, Len(Out))) ELSE Out
+PlanOut == [r \in DOMAIN Plan |-> [kind |-> Plan[r], n |-> Len(ReadExpect(SubSeq(Plan, 1, r - 1), Plan[r]))]]
+(* every complete read delivers Out whatever came before; an abandoned read is a prefix of it *)
+EveryReadAlike == go => \A r \in DOMAIN Plan :
+   LET e == ReadExpect(SubSeq(Plan, 1, r - 1), Plan[r]) IN
+     /\ Plan[r] = "full" => e = Out
+     /\ Plan[r] = "abandon" => (Len(e) <= 1 /\ e = SubSeq(Out, 1, Len(e)))
+Emit == go => PrintT(ToJson([case |-> case, T |-> IF Data = <<>> THEN "-" ELSE T, perm |-> perm, inp |-> Input(case), out |-> Out, plan |-> PlanOut]))
 
 (***************************************************************************)
 (* Design-level facts, checked by TLC in every generated case              *)
